@@ -500,9 +500,9 @@ Lemma modmap_phase vector modules i n :
       overhang_end (ent_cls vector) (ent_seq_w vector) true = Some down /\
       target (ent_cls vector) (ent_seq_w vector) true = Some fr /\
       dict_rel d' pre /\ List.length pre = List.length modules /\
-      forget_used (assemble_raw (ent_cls vector) (ent_seq_w vector) (map raw_of modules)) =
-      forget_used (finish {| vup := okey up; vdown := okey down; vfrag := fr |}
-                     (dwalk (S (List.length pre)) (okey up) (okey down) pre []))
+      assemble_raw (ent_cls vector) (ent_seq_w vector) (map raw_of modules) =
+      finish {| vup := okey up; vdown := okey down; vfrag := fr |}
+             (dwalk (S (List.length pre)) (okey up) (okey down) pre [])
   end.
 Proof.
   intros Gv Gm Hids. unfold assemble_raw, typed_vector.
@@ -716,6 +716,61 @@ Qed.
    concatenated (Annot.product) — each fragment the rotate-slice image of its plasmid's feature
    table plus the generated source feature naming it (Annot.fragment). The consumed modules are
    arguments of the call and their identities are the model's chain. *)
+(* the second phase at the level of records *)
+Lemma generate_phase_records vector mgr d' pre n up down fr :
+  good_ent vector -> am_vector mgr = vector ->
+  overhang_start (ent_cls vector) (ent_seq_w vector) true = Some up ->
+  overhang_end (ent_cls vector) (ent_seq_w vector) true = Some down ->
+  target (ent_cls vector) (ent_seq_w vector) true = Some fr ->
+  dict_rel d' pre -> List.length pre = n ->
+  match dwalk (S n) (okey up) (okey down) pre [] with
+  | WChain u rest => exists prod ws uE,
+      AssemblyManager_generate_assembly (S (S n)) mgr d' = Ok (prod, ws)
+      /\ map ent_id uE = map mid u /\ incl uE (dict_values d')
+      /\ pr_kind prod = KCircularRecord
+      /\ same_sf (to_record prod) (product (map frag_rec (uE ++ [vector])))
+  | _ => True
+  end.
+Proof.
+  intros Gv Hmv Hu Hd Hf Hrel Hlen.
+  pose proof (ent_queries vector Gv) as Q.
+  destruct (typing (ent_cls vector) (ent_seq_w vector) true) as [mv| |] eqn:Htv.
+  2,3: unfold overhang_start, with_match in Hu; rewrite Htv in Hu; discriminate.
+  destruct Q as (r1 & r2 & r3 & up' & down' & fr' & Hu' & Hd' & Hf' & E1 & P1 & E2 & P2 & E3 & P3 & K3).
+  assert (Hup : up' = up) by congruence. assert (Hdown : down' = down) by congruence. assert (Hfr : fr' = fr) by congruence.
+  rewrite Hup in *. rewrite Hdown in *. rewrite Hfr in *. clear Hup Hdown Hfr Hu' Hd' Hf'.
+  unfold AssemblyManager_generate_assembly. rewrite Hmv.
+  rewrite E2. cbn [bind].
+  change (py_while0 (S (S n)) ?st _ _)
+    with (py_while0 (S (S n)) st (walk_cond vector) walk_body).
+  assert (Un : upper_word (pr_seq (seq_upper r2))) by (cbn; apply upper_fold).
+  assert (Kn : okey (pr_seq (seq_upper r2)) = okey down) by (cbn; now rewrite okey_fold, P2).
+  pose proof (walk_loop_rec vector r1 (okey up) E1 (f_equal okey (eq_sym P1))
+                (S n) d' pre (mk_SeqRecord1 (mk_Seq [])) (seq_upper r2) [] []
+                Hrel Un (conj eq_refl eq_refl) (Forall2_nil _) (conj eq_refl eq_refl)) as WL.
+  rewrite Kn in WL.
+  assert (Hnf : dwalk (S n) (okey up) (okey down) pre [] <> WFuel)
+    by (apply (walk_fuel codes_eqb codes_eqb_spec); lia).
+  specialize (WL Hnf).
+  destruct (dwalk (S n) (okey up) (okey down) pre []) as [u rest|o|]; try exact I.
+  destruct WL as (d2 & asm' & next' & uE & Ew & Hrel2 & Ka & HF & Hsf & Hi).
+  rewrite Ew. cbn [bind py_try finish].
+  destruct (ent_target_record vector (TM (ent_id vector) (okey up) (okey down) fr) Gv) as (r3' & E3' & _ & Hsf3).
+  { unfold tm_of, typed_module. now rewrite Hu, Hd, Hf. }
+  assert (r3' = r3) by congruence. subst r3'.
+  destruct (addm_seqrecords_rec asm' r3 Ka K3) as (prod & Ep & [Kp Ap] & Hrecp).
+  assert (Hids_u : map ent_id uE = map mid u).
+  { clear -HF. induction HF as [|e t uE u H0 H IH]; cbn; [reflexivity|]. now rewrite IH, (tm_id _ _ H0). }
+  assert (Hprod : same_sf (to_record prod) (product (map frag_rec (uE ++ [vector]))))
+    by (rewrite Hrecp, map_app; cbn [map]; rewrite product_snoc; now apply same_sf_concat).
+  set (W := if dict_nonempty d2 then _ else _).
+  assert (HW : exists ws, W = Ok ws) by (unfold W; destruct (dict_nonempty d2); eauto).
+  destruct HW as [ws HW]. rewrite HW. cbn [bind]. rewrite E3. cbn [bind]. rewrite Ep. cbn [bind].
+  rewrite CircularRecord_new_eq. unfold bio_CircularRecord_of. rewrite Ap. cbn [bind].
+  eexists _, ws, uE. split; [reflexivity|]. split; [exact Hids_u|]. split; [exact Hi|].
+  split; [reflexivity|]. exact Hprod.
+Qed.
+
 Theorem vector_assemble_records vector modules :
   good_ent vector -> Forall good_ent modules ->
   map ent_id modules = seq 0 (List.length modules) ->
@@ -756,38 +811,15 @@ Proof.
   rewrite (rc_loop d' pre Hrel Hnd d' pre Hrel (fun t H => H)).
   unfold dna_assemble, assemble, assemble_with. cbn [vup vdown]. rewrite Hvo, Hbm.
   destruct (drc_clash pre pre) as [[a b]|]; [exact I|].
-  cbn [bind]. unfold AssemblyManager_generate_assembly. cbn [am_vector].
-  rewrite E2. cbn [bind].
-  change (py_while0 (S (S (List.length modules))) ?st _ _)
-    with (py_while0 (S (S (List.length modules))) st (walk_cond vector) walk_body).
+  cbn [bind].
   assert (Hlen : List.length pre = List.length modules)
     by (rewrite (type_prefix_length _ _ _ Htp); apply map_length).
+  pose proof (generate_phase_records vector
+                (mk_AssemblyManager vector modules (modules ++ [vector]) PyHeap.str_assembly PyHeap.str_assembly)
+                d' pre (List.length modules) up down fr Gv eq_refl Hu Hd Hf Hrel Hlen) as GP.
   rewrite Hlen.
-  assert (Un : upper_word (pr_seq (seq_upper r2))) by (cbn; apply upper_fold).
-  assert (Kn : okey (pr_seq (seq_upper r2)) = okey down) by (cbn; now rewrite okey_fold, P2).
-  pose proof (walk_loop_rec vector r1 (okey up) E1 (f_equal okey (eq_sym P1))
-                (S (List.length modules)) d' pre (mk_SeqRecord1 (mk_Seq [])) (seq_upper r2) [] []
-                Hrel Un (conj eq_refl eq_refl) (Forall2_nil _) (conj eq_refl eq_refl)) as WL.
-  rewrite Kn in WL.
-  assert (Hnf : dwalk (S (List.length modules)) (okey up) (okey down) pre [] <> WFuel)
-    by (apply (walk_fuel codes_eqb codes_eqb_spec); lia).
-  specialize (WL Hnf).
   destruct (dwalk (S (List.length modules)) (okey up) (okey down) pre []) as [u rest|o|]; try exact I.
-  destruct WL as (d2 & asm' & next' & uE & Ew & Hrel2 & Ka & HF & Hsf & Hi).
-  rewrite Ew. cbn [bind py_try finish].
-  destruct (ent_target_record vector (TM (ent_id vector) (okey up) (okey down) fr) Gv) as (r3' & E3' & _ & Hsf3).
-  { unfold tm_of, typed_module. now rewrite Hu, Hd, Hf. }
-  assert (r3' = r3) by congruence. subst r3'.
-  destruct (addm_seqrecords_rec asm' r3 Ka K3) as (prod & Ep & [Kp Ap] & Hrecp).
-  assert (Hids_u : map ent_id uE = map mid u).
-  { clear -HF. induction HF as [|e t uE u H0 H IH]; cbn; [reflexivity|]. now rewrite IH, (tm_id _ _ H0). }
-  assert (Hprod : same_sf (to_record prod) (product (map frag_rec (uE ++ [vector]))))
-    by (rewrite Hrecp, map_app; cbn [map]; rewrite product_snoc; now apply same_sf_concat).
-  assert (HuE : incl uE modules) by (intros x Hx; specialize (Hi x Hx); cbn [app] in Hi; now apply Hinc).
-  set (W := if dict_nonempty d2 then _ else _).
-  assert (HW : exists ws, W = Ok ws) by (unfold W; destruct (dict_nonempty d2); eauto).
-  destruct HW as [ws HW]. rewrite HW. cbn [bind]. rewrite E3. cbn [bind]. rewrite Ep. cbn [bind].
-  rewrite CircularRecord_new_eq. unfold bio_CircularRecord_of. rewrite Ap. cbn [bind].
-  eexists _, ws, uE. split; [reflexivity|]. split; [exact Hids_u|]. split; [exact HuE|].
-  split; [reflexivity|]. exact Hprod.
+  destruct GP as (prod & ws & uE & Eg & Hids_u & Hi & Kp & Hprod).
+  cbn [finish]. exists prod, ws, uE. split; [exact Eg|]. split; [exact Hids_u|]. split; [|split; [exact Kp|exact Hprod]].
+  intros x Hx. apply Hinc. exact (Hi x Hx).
 Qed.
